@@ -71,6 +71,8 @@ pub struct ObsOut {
     pub is_checked: bool,
     pub failing: bool,
     pub is_virtual: bool,
+    /// OutputValue::check(expected) and ExpectedValue::check(output): the same verdict through the value API
+    pub value_check: (bool, bool),
 }
 
 #[derive(Clone, Debug, PartialEq, Eq, Hash)]
@@ -187,6 +189,7 @@ fn project_row(row: &dtr::DataRow<'_>) -> ObsRow {
                 is_checked: o.is_checked(),
                 failing: failing.contains(&(o as *const _)),
                 is_virtual: matches!(o.signal.typ, dtr::SignalType::Virtual { .. }),
+                value_check: (o.output.check(o.expected), o.expected.check(o.output)),
             })
             .collect(),
     }
